@@ -260,10 +260,19 @@ class PyDict:
         return "<PyDict %r>" % (self.d,)
 
 
+_UID = [0]
+
+
+def new_uid():
+    _UID[0] += 1
+    return _UID[0]
+
+
 class SObj:
-    def __init__(self, cls, fields=None):
+    def __init__(self, cls, fields=None, uid=None):
         self.cls = cls
         self.fields = dict(fields or {})
+        self.uid = uid or new_uid()
 
     def __repr__(self):
         return "<%s object>" % self.cls
@@ -276,6 +285,7 @@ class Opaque:
         self.tag = tag
         self.name = name or tag
         self.attrs = dict(attrs)
+        self.uid = new_uid()
 
     def __repr__(self):
         return "<opaque %s %s>" % (self.tag, self.name)
